@@ -217,6 +217,12 @@ func c20Gopacket(b []byte, ref *pkt.Info) (string, string) {
 				continue
 			}
 		case layers.LayerTypeIPv6HopByHop, layers.LayerTypeIPv6Routing, layers.LayerTypeIPv6Destination, layers.LayerTypeIPSecAH:
+			if ref.Version == 4 {
+				// IPv4 has no extension headers: protocol 0/43/60/51 behind an IPv4 header is just an upper
+				// protocol nebula does not inspect. gopacket decodes them as IPv6 extension layers and walks
+				// on into the payload; its opinion about what follows is not an opinion about this packet.
+				return "gopacket-v4-with-ipv6-exthdr-protocol", ""
+			}
 			continue
 		}
 		up = l
